@@ -82,14 +82,41 @@ def check_sheet_names(ctx: CheckContext, p: Program, r: Resolver, rule: str = "B
         ctx.ob(rule + "-CHARS", f"{alloc.qualname}:sanitiser", alloc.loc, False, "the allocator does not pass the name through a re.sub-based sanitiser")
     else:
         cls = None
+
+        def const_str(e):
+            """literal string, or a module-level name bound to one"""
+            if isinstance(e, ast.Constant) and isinstance(e.value, str):
+                return e.value
+            if isinstance(e, ast.Name):
+                b = m.ns.get(e.id)
+                if b is not None and b.kind == "var" and isinstance(b.target[2], ast.Constant) and isinstance(b.target[2].value, str):
+                    return b.target[2].value
+            return None
+
+        def sub_parts(call: ast.Call):
+            """(pattern text, replacement node, subject node) of  re.sub(p, r, s)  or  <compiled>.sub(r, s)  with <compiled> = re.compile(p) at module level"""
+            recv = call.func.value
+            if isinstance(recv, ast.Name) and recv.id == "re":
+                if len(call.args) >= 3:
+                    return const_str(call.args[0]), call.args[1], call.args[2]
+                return None
+            if isinstance(recv, ast.Name):
+                b = m.ns.get(recv.id)
+                v = b.target[2] if b is not None and b.kind == "var" else None
+                if isinstance(v, ast.Call) and isinstance(v.func, ast.Attribute) and v.func.attr == "compile" and v.args and len(call.args) >= 2:
+                    return const_str(v.args[0]), call.args[0], call.args[1]
+            return None
         for n in body_nodes(sanit):
-            if isinstance(n, ast.Call) and isinstance(n.func, ast.Attribute) and n.func.attr == "sub" and n.args \
-                    and isinstance(n.args[0], ast.Constant) and isinstance(n.args[0].value, str):
-                cls = _regex_class(n.args[0].value)
-                repl = n.args[1].value if len(n.args) > 1 and isinstance(n.args[1], ast.Constant) else None
-                subject = n.args[2] if len(n.args) > 2 else None
+            if isinstance(n, ast.Call) and isinstance(n.func, ast.Attribute) and n.func.attr == "sub" and n.args:
+                parts = sub_parts(n)
+                if parts is None or parts[0] is None:
+                    raise AnalysisError(f"{sanit.loc}: the sanitiser's substitution pattern cannot be resolved to a literal: {ast.unparse(n)[:80]}")
+                cls = _regex_class(parts[0])
+                repl = parts[1].value if isinstance(parts[1], ast.Constant) else None
+                subject = parts[2]
+                pattern_text = parts[0]
                 if cls is None:
-                    raise AnalysisError(f"{sanit.loc}: sanitiser pattern is not a plain character class: {n.args[0].value!r}")
+                    raise AnalysisError(f"{sanit.loc}: sanitiser pattern is not a plain character class: {pattern_text!r}")
                 missing = FORBIDDEN - cls
                 ok = not missing
                 ctx.ob(rule + "-CHARS", f"{sanit.qualname}:class", f"{sanit.module.relpath}:{n.lineno}", ok,
@@ -107,7 +134,12 @@ def check_sheet_names(ctx: CheckContext, p: Program, r: Resolver, rule: str = "B
             if isinstance(n, ast.Return) and n.value is not None:
                 lits = [c.value for c in ast.walk(n.value) if isinstance(c, ast.Constant) and isinstance(c.value, str)]
                 bad = [l for l in lits if set(l) & FORBIDDEN]
-                names = {x.id for x in ast.walk(n.value) if isinstance(x, ast.Name)}
+                # the argument may appear as the SUBJECT of the substitution; anywhere else in the returned expression it is the raw text
+                inside_sub = set()
+                for c in ast.walk(n.value):
+                    if isinstance(c, ast.Call) and isinstance(c.func, ast.Attribute) and c.func.attr == "sub":
+                        inside_sub |= {id(x) for a in c.args for x in ast.walk(a)}
+                names = {x.id for x in ast.walk(n.value) if isinstance(x, ast.Name) and id(x) not in inside_sub}
                 ok = not bad and not (names & set(sanit.pos_params))
                 ctx.ob(rule + "-CHARS", f"{sanit.qualname}:{norm_stmt(n)}", f"{sanit.module.relpath}:{n.lineno}", ok,
                        "" if ok else "sanitiser can return the raw argument or a literal with forbidden characters")
